@@ -124,4 +124,12 @@ theorem C02_source_skeletons :
     Gen.Skel.DB_writeDatabasePage = Expected.Skel.DB_writeDatabasePage :=
   ⟨rfl, rfl, rfl, rfl⟩
 
+/-- the checksum bookkeeping a commit relies on: per-page sums, the cached 256-page block sums and
+    their invalidation -/
+theorem C02_source_skeletons_2 :
+    Gen.Skel.DB_checksum = Expected.Skel.DB_checksum ∧
+    Gen.Skel.DB_setDatabasePageChecksum = Expected.Skel.DB_setDatabasePageChecksum ∧
+    Gen.Skel.DB_resetDatabasePageChecksumsAfter = Expected.Skel.DB_resetDatabasePageChecksumsAfter :=
+  ⟨rfl, rfl, rfl⟩
+
 end LiteFSVerif.C02
